@@ -47,7 +47,11 @@ EXPLANATION = (
     "complete model check of the registry are R08c/R08d of C08, run here as well. R19i: cached_member and cached_property are "
     "evaluated on a method model that counts its evaluations, for call sequences over two instances, two methods, positional/"
     "keyword/default spellings: a result is reused only for the same instance, method and fully bound arguments, equal "
-    "requests are evaluated once, the method receives the requested arguments. R19f: alias flow from every use of a cached method/property whose result is a mutable "
+    "requests are evaluated once, the method receives the requested arguments. R19j: TensorNames.rename_tensors is evaluated "
+    "on a model expression (a list of tensor names with rename_tensor / atoms, both iteration orders) for seven "
+    "configurations (identity, one rename, two defaults swapped, a chain, amplitudes renamed, amplitudes and densities swapped, "
+    "a name taken from a later field): every default name incl. t<n>[cc] / p<n> ends up with the name map_default_name "
+    "assigns to it, all at once. R19f: alias flow from every use of a cached method/property whose result is a mutable "
     "container (names, walrus, conditional expressions, reaching definitions) to in-place mutations (mutator methods, item/"
     "attribute stores, augmented assignment, arguments of repository functions that mutate the bound parameter); cached "
     "derivation methods return immutable sympy objects on every evaluated path.")
@@ -2319,6 +2323,8 @@ def run(ctx):
         r19f(ctx)
     if ctx.want("R19i"):
         r19i(ctx)
+    if ctx.want("R19j"):
+        r19j(ctx)
 
 
 def run_thorough(ctx):
